@@ -334,7 +334,10 @@ theorem iterNext_reeval (f ls : Nat) (n it : Node) :
     iterNext (f+1) ls n it .reeval = (do
       match ← attemptE (eval f ls it) with
       | .ok v => pure (v, IterSt.reeval)
-      | .error (Sig.iter _ cur) => pure (.num cur, IterSt.reeval)
+      | .error (Sig.iter e cur) =>
+        match it.tok with
+        | some t => if e.line == t.line && e.pos == t.col then pure (.num cur, IterSt.reeval) else pure (.null, IterSt.reeval)
+        | none => pure (.null, IterSt.reeval)
       | .error e => throw e) := by
   rw [iterNext]; rfl
 
